@@ -21,3 +21,12 @@ pub assume_specification<T> [std::option::Option::<T>::unwrap_unchecked] (o: std
     requires o.is_some()
     ensures r == o.unwrap()
 ;
+// `Option::is_some_and(f)` == `map(f).unwrap_or(false)` (not specified by vstd)
+pub assume_specification<T, F: FnOnce(T) -> bool> [std::option::Option::<T>::is_some_and] (o: std::option::Option<T>, f: F) -> (r: bool)
+    requires o.is_some() ==> f.requires((o.unwrap(),))
+    ensures o.is_none() ==> !r, o.is_some() ==> f.ensures((o.unwrap(),), r)
+;
+pub assume_specification<T, A> [std::collections::VecDeque::<T, A>::is_empty] (v: &std::collections::VecDeque<T, A>) -> (r: bool)
+    where A: std::alloc::Allocator
+    ensures r == (v@.len() == 0)
+;
